@@ -497,6 +497,15 @@ def _chain(desc, g):
     return ch[::-1]
 
 
+def group_inside(desc, g, anc):
+    """group g is anc or lies below it"""
+    while g != -1:
+        if g == anc:
+            return True
+        g = desc['groups'][g]['parent']
+    return False
+
+
 def _lca(desc, gs):
     chains = [_chain(desc, g) for g in gs]
     common = -1
